@@ -25,7 +25,8 @@ Section History.
     inv_primary : st.(s_primary) = primary;
     inv_no_admin_no_keys : admin = None -> st.(s_keys) = [];
     inv_primary_unbound : lookup primary st.(s_keys) = None;
-    inv_origin : forall n b, lookup n st.(s_keys) = Some b -> exists k o, b = hash_of k /\ In o h /\ binds o n k
+    inv_origin : forall n b, lookup n st.(s_keys) = Some b -> exists k o, b = hash_of k /\ In o h /\ binds o n k;
+    inv_sync : st.(s_pkeys) = st.(s_keys)      (* what a restart would reload is what is in force now *)
   }.
 
   Lemma check_binding_none : forall (st : sstate) n k,
@@ -46,7 +47,7 @@ Section History.
 
   Lemma inv_weaken : forall admin primary h o st, inv admin primary h st -> inv admin primary (h ++ [o])%list st.
   Proof.
-    intros admin primary h o st [I1 I2 I3 I4 I5]. constructor; auto.
+    intros admin primary h o st [I1 I2 I3 I4 I5 I6]. constructor; auto.
     intros n b L. destruct (I5 n b L) as [k [o' [E [Hin B]]]]. exists k, o'. repeat split; auto. apply in_or_app. now left.
   Qed.
 
@@ -54,9 +55,9 @@ Section History.
   Lemma inv_insert : forall admin primary h o (st : sstate) n k keys',
       inv admin primary h st -> binds o n k -> st.(s_admin) <> None -> n <> primary ->
       forall st', s_admin st' = s_admin st -> s_primary st' = s_primary st -> s_keys st' = insert n (hash_of k) st.(s_keys) ->
-      keys' = s_keys st' -> inv admin primary (h ++ [o])%list st'.
+      keys' = s_keys st' -> s_pkeys st' = s_keys st' -> inv admin primary (h ++ [o])%list st'.
   Proof.
-    intros admin primary h o st n k keys' [I1 I2 I3 I4 I5] B Ha Np st' E1 E2 E3 _. constructor.
+    intros admin primary h o st n k keys' [I1 I2 I3 I4 I5 I6] B Ha Np st' E1 E2 E3 _ E4. constructor; [| | | | |exact E4].
     - congruence.
     - congruence.
     - intros N. subst admin. rewrite I1 in Ha. now contradiction Ha.
@@ -69,9 +70,9 @@ Section History.
 
   Lemma inv_same_keys : forall admin primary h o (st st' : sstate),
       inv admin primary h st -> s_admin st' = s_admin st -> s_primary st' = s_primary st -> s_keys st' = s_keys st ->
-      inv admin primary (h ++ [o])%list st'.
+      s_pkeys st' = s_keys st' -> inv admin primary (h ++ [o])%list st'.
   Proof.
-    intros admin primary h o st st' I E1 E2 E3. apply (inv_weaken _ _ _ o) in I. destruct I as [I1 I2 I3 I4 I5].
+    intros admin primary h o st st' I E1 E2 E3 E4. apply (inv_weaken _ _ _ o) in I. destruct I as [I1 I2 I3 I4 I5 I6].
     constructor; try congruence.
     - intros N. rewrite E3. now apply I3.
     - intros n b. rewrite E3. apply I5.
@@ -79,9 +80,9 @@ Section History.
 
   Lemma inv_remove : forall admin primary h o (st st' : sstate) n,
       inv admin primary h st -> s_admin st' = s_admin st -> s_primary st' = s_primary st -> s_keys st' = remove_key n (s_keys st) ->
-      inv admin primary (h ++ [o])%list st'.
+      s_pkeys st' = s_keys st' -> inv admin primary (h ++ [o])%list st'.
   Proof.
-    intros admin primary h o st st' n I E1 E2 E3. apply (inv_weaken _ _ _ o) in I. destruct I as [I1 I2 I3 I4 I5].
+    intros admin primary h o st st' n I E1 E2 E3 E4. apply (inv_weaken _ _ _ o) in I. destruct I as [I1 I2 I3 I4 I5 I6].
     constructor; try congruence.
     - intros N. rewrite E3, (I3 N). reflexivity.
     - rewrite E3. destruct (string_dec primary n) as [->|N]; [apply lookup_remove_same|]. rewrite lookup_remove_other; auto.
@@ -93,7 +94,7 @@ Section History.
       inv admin primary h st -> (forall k, key = Some k -> binds o n k) ->
       inv admin primary (h ++ [o])%list (fst (register_db hash_of st mode n key)).
   Proof.
-    intros admin primary h st mode n key o I B. unfold register_db.
+    intros admin primary h st mode n key o I B. pose proof (inv_sync _ _ _ _ I) as Sy. unfold register_db.
     destruct (negb (valid_name n)); [cbn; eapply inv_same_keys; eauto|].
     destruct key as [k|].
     - destruct (check_binding st n k) as [e|] eqn:C; [cbn; eapply inv_same_keys; eauto|].
@@ -111,7 +112,7 @@ Section History.
   Lemma apply_op_inv : forall admin primary h st o,
       inv admin primary h st -> inv admin primary (h ++ [o])%list (fst (apply_op st o)).
   Proof.
-    intros admin primary h st o I. destruct o as [n k|n|n|n|n k|n|]; cbn [apply_op].
+    intros admin primary h st o I. pose proof (inv_sync _ _ _ _ I) as Sy. destruct o as [n k|n|n|n|n k|n|]; cbn [apply_op].
     - apply register_db_inv; auto. intros k' E; subst k. now left.
     - apply register_db_inv; auto. intros k' E; discriminate.
     - apply register_db_inv; auto. intros k' E; discriminate.
@@ -226,9 +227,10 @@ Section History.
      reopened database does not come back under the admin-key fallback *)
   Theorem lifecycle_keeps_bindings : forall (st : sstate) o,
       (match o with OClose _ | OOpen _ | OConnect _ | ORestart | OCreate _ None => True | _ => False end) ->
+      s_pkeys st = s_keys st ->
       s_keys (fst (apply_op st o)) = s_keys st /\ s_admin (fst (apply_op st o)) = s_admin st.
   Proof.
-    intros st o Ho. destruct o as [n [k|]|n|n|n|n k|n|]; try contradiction; cbn [apply_op].
+    intros st o Ho Sy. destruct o as [n [k|]|n|n|n|n k|n|]; try contradiction; cbn [apply_op].
     1-3: unfold register_db; destruct (negb (valid_name n)); [auto|]; cbn;
          destruct (mem n (s_open st)); [auto|];
          destruct (negb (mem n (s_registry st)) && Nat.leb (s_max st) (List.length (s_registry st))); [auto|];
@@ -237,5 +239,41 @@ Section History.
     - unfold close_db. destruct (String.eqb n (s_primary st)); [auto|].
       destruct (negb (mem n (s_open st)) && negb (mem n (s_registry st))); cbn; auto.
     - cbn. auto.
+  Qed.
+
+  (* revocation is durable: the same rejection after the server is restarted over the same object store *)
+  Theorem rotation_survives_restart : forall (st : sstate) ka n k1 k2 r,
+      st.(s_admin) = Some (hash_of ka) -> snd (set_db_api_key hash_of st n k2) = OpOk ->
+      k1 <> k2 -> k1 <> ka -> bearer_token T r = Some k1 -> r.(r_verb) = POST -> r.(r_path) = [n] -> n <> "" ->
+      handle T (restart (fst (set_db_api_key hash_of st n k2))) r = RUnauthorized.
+  Proof.
+    intros st ka n k1 k2 r Ha Ok N12 N1a Tok V P Ne.
+    assert (En : String.eqb n "" = false) by now apply String.eqb_neq.
+    apply (uniform_rejection verify T Hrules).
+    - split; [exact V|]. rewrite P. cbn. rewrite En. discriminate.
+    - unfold set_db_api_key in *. destruct (check_binding st n k2) as [e0|] eqn:CB;
+        [cbn in Ok; apply check_binding_some in CB; contradiction|].
+      destruct (known_db st n); [|cbn in Ok; discriminate]. cbn [fst].
+      exists (hash_of ka). split; [exact Ha|]. intros k E. rewrite Tok in E. inversion E; subst k.
+      split; [rewrite verify_spec; apply String.eqb_neq; congruence|].
+      intros m b S L. rewrite P in S. cbn in S. rewrite En in S. cbn in S. inversion S; subst m.
+      unfold restart, set_keys in L; cbn [s_keys s_pkeys] in L. rewrite lookup_insert_same in L. inversion L; subst b.
+      rewrite verify_spec. apply String.eqb_neq. congruence.
+  Qed.
+
+  Theorem removal_survives_restart : forall (st : sstate) ka n k1 r,
+      st.(s_admin) = Some (hash_of ka) -> snd (remove_db_api_key st n) = OpOk ->
+      k1 <> ka -> bearer_token T r = Some k1 -> r.(r_verb) = POST -> r.(r_path) = [n] -> n <> "" ->
+      handle T (restart (fst (remove_db_api_key st n))) r = RUnauthorized.
+  Proof.
+    intros st ka n k1 r Ha Ok N1a Tok V P Ne.
+    assert (En : String.eqb n "" = false) by now apply String.eqb_neq.
+    apply (uniform_rejection verify T Hrules).
+    - split; [exact V|]. rewrite P. cbn. rewrite En. discriminate.
+    - unfold remove_db_api_key in *. destruct (known_db st n); [|cbn in Ok; discriminate]. cbn [fst].
+      exists (hash_of ka). split; [exact Ha|]. intros k E. rewrite Tok in E. inversion E; subst k.
+      split; [rewrite verify_spec; apply String.eqb_neq; congruence|].
+      intros m b S L. rewrite P in S. cbn in S. rewrite En in S. cbn in S. inversion S; subst m.
+      unfold restart, set_keys in L; cbn [s_keys s_pkeys] in L. rewrite lookup_remove_same in L. discriminate.
   Qed.
 End History.
